@@ -47,7 +47,7 @@ REQUIRED_MONITORS = ["crashes_delivered", "resumes_completed", "h5_files_compare
                      "sequence_scenarios", "syscall_kills", "random_sigkills"]
 CASE_TIMEOUT = 1500.0
 # budgets are sized for 16 workers; with fewer workers (VERIF_NCPU) the same work needs proportionally longer
-_SCALE = max(1.0, 16.0 / max(1, env.NCPU))
+_SCALE = max(1.0, 16.0 / max(1, env.NCPU)) * float(os.environ.get("VERIF_BUDGET_SCALE", "1"))   # >1 on a loaded machine
 BUDGET_S = {"quick": 200 * _SCALE, "thorough": 1800 * _SCALE}
 MIN_NONTRIVIAL = 6
 TOL = 1e-9
@@ -529,6 +529,9 @@ def run_case(case):
             err = [e for e in rev if e.get("ev") == "error"]
             return {"inconclusive": "uninterrupted reference run failed: %r %s" % (r, err[:1])}
         mon["reference_runs"] += 1
+        miss = [e["names"] for e in rev if e.get("ev") == "missing_symbols"]
+        if miss:   # a refactor renamed a wrapped internal: say which, do not guess
+            return {"inconclusive": "wrapped symbols not found in the repository: %s" % miss[0]}
         census = mdio.census(rev)
         ref = {"h5": {}, "xyz": {}}
         for fn in mdio.run_files(rcfg):
